@@ -9,6 +9,8 @@ R-C06-3/4/5: placement of the validator call on the receive path.
 """
 from __future__ import annotations
 
+import ast
+
 from ..absint import Config, Interp
 from ..dfa import RefUtf8, RefUtf8Regex, distinguish
 from ..harness import rule
@@ -33,6 +35,12 @@ def extract_automaton(ctx):
     idx = ctx.index
     I0 = Interp(idx, Config())
     f_val = _utils_fn(ctx, I0, "_validate_utf8")
+    env0 = I0.module_env(I0.base, "_utils")
+    if not isinstance(env0.vars.get("_decode"), Fn):
+        # no separate step function: read the automaton off the loop of the validator itself
+        auto = extract_automaton_from_loop(ctx, f_val)
+        ctx.cache["c06:auto"] = auto
+        return auto
     f_dec = _utils_fn(ctx, I0, "_decode")
     dec_q = f_dec.qualname
 
@@ -195,6 +203,159 @@ def extract_automaton(ctx):
             "roles": {"state_param": sp, "byte_param": bp, "state_result": ri}}
     ctx.cache["c06:auto"] = auto
     return auto
+
+
+def _names_read(node):
+    return {n.id for n in ast.walk(node) if isinstance(n, ast.Name) and isinstance(n.ctx, ast.Load)}
+
+
+def _names_written(node):
+    return {n.id for n in ast.walk(node) if isinstance(n, ast.Name) and isinstance(n.ctx, (ast.Store, ast.Del))}
+
+
+def _exposed_reads(stmts, assigned):
+    """Names that may be read before being (definitely) assigned when `stmts` run with `assigned` already set.
+    Returns (exposed, definitely assigned afterwards)."""
+    exposed = set()
+    assigned = set(assigned)
+    for st in stmts:
+        if isinstance(st, (ast.Assign, ast.AnnAssign, ast.AugAssign)):
+            val = st.value
+            if val is not None:
+                exposed |= _names_read(val) - assigned
+            tg = st.targets if isinstance(st, ast.Assign) else [st.target]
+            if isinstance(st, ast.AugAssign):
+                exposed |= _names_read(ast.Name(id=st.target.id, ctx=ast.Load())) - assigned if isinstance(st.target, ast.Name) else set()
+            for t in tg:
+                exposed |= _names_read(t) - assigned  # subscripts / attributes on the left
+                assigned |= _names_written(t)
+        elif isinstance(st, ast.If):
+            exposed |= _names_read(st.test) - assigned
+            e1, a1 = _exposed_reads(st.body, assigned)
+            e2, a2 = _exposed_reads(st.orelse, assigned)
+            exposed |= e1 | e2
+            assigned = a1 & a2
+        elif isinstance(st, (ast.For, ast.While)):
+            exposed |= _names_read(st.iter if isinstance(st, ast.For) else st.test) - assigned
+            inner = set(assigned) | (_names_written(st.target) if isinstance(st, ast.For) else set())
+            e1, _ = _exposed_reads(st.body, inner)
+            e2, _ = _exposed_reads(st.orelse, assigned)
+            exposed |= e1 | e2
+        else:
+            exposed |= _names_read(st) - assigned
+            # writes inside other compound statements are not counted as definite
+    return exposed, assigned
+
+
+def extract_automaton_from_loop(ctx, f_val):
+    """The validator as one loop over the input: its automaton states are the values, at the loop head, of the variables
+    that (a) can still be read before being overwritten and (b) can influence a branch or the result (backward slice).
+    Transitions and acceptance are obtained by folding the function on constant inputs (access word + one byte)."""
+    idx = ctx.index
+    fi = idx.func(f_val.qualname, "R-C06-1")
+    fn = fi.node
+    params = [a.arg for a in fn.args.posonlyargs + fn.args.args]
+    loops = [st for st in fn.body if isinstance(st, ast.For)]
+    if len(loops) != 1 or not (_names_read(loops[0].iter) & set(params)):
+        raise AnalysisError("anchor vanished: _utils._decode, and _validate_utf8 is not a single loop over its argument (pure-Python validator arm)")
+    loop = loops[0]
+    after = fn.body[fn.body.index(loop) + 1:]
+    # (b) backward slice from branch conditions, returns and raises
+    rel = set()
+    for n in ast.walk(fn):
+        if isinstance(n, (ast.If, ast.While, ast.IfExp)):
+            rel |= _names_read(n.test)
+        elif isinstance(n, (ast.Return, ast.Raise, ast.Assert)):
+            rel |= _names_read(n)
+    changed = True
+    while changed:
+        changed = False
+        for n in ast.walk(fn):
+            if isinstance(n, (ast.Assign, ast.AugAssign, ast.AnnAssign)) and n.value is not None:
+                tg = n.targets if isinstance(n, ast.Assign) else [n.target]
+                if any(_names_written(t) & rel for t in tg):
+                    new = _names_read(n.value) | set().union(*[_names_read(t) for t in tg])
+                    if isinstance(n, ast.AugAssign):
+                        new |= _names_written(n.target)
+                    if not new <= rel:
+                        rel |= new
+                        changed = True
+            elif isinstance(n, ast.For) and (_names_written(n.target) & rel) and not _names_read(n.iter) <= rel:
+                rel |= _names_read(n.iter)
+                changed = True
+    # (a) upward-exposed reads of the loop body, and reads after the loop
+    exposed, _ = _exposed_reads(loop.body, _names_written(loop.target))
+    exposed |= _exposed_reads(after, set())[0]
+    state_vars = sorted((rel & exposed) - set(params) - _names_written(loop.target))
+    if not state_vars:
+        raise AnalysisError("_validate_utf8: no loop-carried variable influences the result")
+    ctx.notes.append(f"validator loop at {idx.loc(loop)}: loop-carried state variables {state_vars} (slice {sorted(rel)})")
+
+    def hook(run, st, env, it, phase):
+        if st is loop:
+            vals = []
+            for v in state_vars:
+                x = env.vars.get(v)
+                x = I.resolve(run, x) if x is not None else None
+                if x is not None and not isinstance(x, C):
+                    raise AnalysisError(f"loop-head value of {v} is not a constant: {x!r}")
+                vals.append(None if x is None else x.v)
+            run.memo.setdefault("@snap", []).append((phase, it, tuple(vals)))
+
+    cfg = Config()
+    cfg.loop_hook = hook
+    I = Interp(idx, cfg)
+    memo = {}
+
+    def after_word(w):
+        """-> (state key, accepts-if-input-ends-here)"""
+        if w in memo:
+            return memo[w]
+        outs = I.explore(lambda run: I.call(run, f_val, [C(bytes(w))], {}, None))
+        ctx.paths += len(outs)
+        if len(outs) != 1 or outs[0].kind != "return" or not isinstance(outs[0].value, C):
+            raise AnalysisError(f"_validate_utf8({bytes(w)!r}) does not fold to one constant result: {[(o.kind, o.exc_class, o.value) for o in outs][:2]}")
+        o = outs[0]
+        snaps = o.run.memo.get("@snap", [])
+        done = [x for x in snaps if x[0] == "done"]
+        res = bool(o.value.v)
+        if done:
+            key = "s" + repr(done[-1][2])
+        else:
+            key = ("sink", res)  # returned from inside the loop: nothing after this point is looked at
+        memo[w] = (key, res)
+        return memo[w]
+
+    start, acc0 = after_word(())
+    access = {start: ()}
+    accept = {start: acc0}
+    order = [start]
+    table = {}
+    i = 0
+    while i < len(order):
+        s = order[i]
+        i += 1
+        if isinstance(s, tuple):
+            continue
+        for b in range(256):
+            t, acc_t = after_word(access[s] + (b,))
+            table[(s, b)] = t
+            if t not in access:
+                access[t] = access[s] + (b,)
+                accept[t] = acc_t
+                order.append(t)
+                if len(order) > 64:
+                    raise AnalysisError("validator loop has more than 64 distinguishable loop-head states (state variables "
+                                        f"{state_vars}): the automaton cannot be read off")
+            elif accept[t] != acc_t:
+                raise AnalysisError(f"loop-head state {t} is accepting for {access[t]!r} but not for {access[s] + (b,)!r}: state variables {state_vars} are incomplete")
+
+    def delta(s, b):
+        return table[(s, b)]
+
+    states = [s for s in order if not isinstance(s, tuple)]
+    return {"start": start, "delta": delta, "accept": accept, "early": {s: None for s in order}, "states": states,
+            "roles": {"state_vars": state_vars, "mode": "loop-head states"}}
 
 
 def _code_dfa(auto):
